@@ -12,7 +12,8 @@ def grid(tier, seed):
     fixed = [('nrst', 'sat', 31, 0, 31, 0, 31, 0), ('nrst', 'sat', 10, -4, 8, -2, 6, -1), ('tpi', 'thr', 16, -8, 16, -8, 8, -4),
              ('ninf', 'trp', 5, -2, 4, 0, 3, 1), ('nat', 'sat', 20, -10, 12, 0, 15, -5), ('nrst', 'sat', 40, -20, 10, -4, 30, -10),
              ('nrst', 'thr', 3, 0, 3, -1, 2, 0), ('tpi', 'sat', 62, -31, 30, -16, 31, -8), ('nrst', 'sat', 5, -2, 4, 0, 6, 1),
-             ('ninf', 'sat', 7, -3, 5, -1, 8, 0)]
+             ('ninf', 'sat', 7, -3, 5, -1, 8, 0), ('nrst', 'thr', 31, -31, 8, 0, 20, 0),
+             ('tpi', 'sat', 16, -20, 5, 1, 7, -4)]
     n = 24 if tier == 'quick' else 120
     out = list(fixed)
     while len(out) < n:
